@@ -16,9 +16,9 @@ func idErr(err error) error { return err }
 // elem is one step of a Serializer/Deserializer program.
 type elem struct {
 	kind   string
-	sops   []string                          // Coq sop terms producing this step's bytes
-	ser    func(s *serializer.Serializer)    // the same on the real Serializer
-	dop    string                            // Coq dop term
+	sops   []string                       // Coq sop terms producing this step's bytes
+	ser    func(s *serializer.Serializer) // the same on the real Serializer
+	dop    string                         // Coq dop term
 	des    func(d *serializer.Deserializer) func(before, after error) string
 	want   string // expected dout when the stream is valid ("" = not a round-trip pair)
 	prefix []int  // widths of a length/count prefix at the start of this step's bytes (for inflation), 0 if none
